@@ -1,6 +1,7 @@
 import FindVerif.Theorems.C06
 import FindVerif.Theorems.C06Layout
 import FindVerif.Theorems.C06Args
+import FindVerif.Theorems.C08Text
 #print axioms FV.C06_blank
 #print axioms FV.C06_tokens_only
 #print axioms FV.C06_gap_kinds
@@ -29,3 +30,4 @@ import FindVerif.Theorems.C06Args
 #print axioms FV.writes_test_binary
 #print axioms FV.writes_action_binary
 #print axioms FV.argExact_word
+#print axioms FV.argWrites_perm_symbolic
